@@ -114,6 +114,15 @@ func inPoll(o obs) bool       { return o.allInPoll() }
 
 func runScript(sp spec) *run {
 	r := newRun(sp)
+	r.guard(func() { r.script() })
+	r.shutdownAsync()
+	r.openAll()
+	r.finish()
+	return r
+}
+
+func (r *run) script() {
+	sp := r.sp
 	switch sp.Script {
 	case "resched-during-callback":
 		a := r.appendItem(1, -1000, true)
@@ -378,10 +387,6 @@ func runScript(sp spec) *run {
 	default:
 		panic("unknown script " + sp.Script)
 	}
-	r.shutdownAsync()
-	r.openAll()
-	r.finish()
-	return r
 }
 
 // ---------------------------------------------------------------- seeded random runs
@@ -528,7 +533,11 @@ func (r *run) monitor(stop, done chan struct{}) {
 			return
 		default:
 		}
-		r.observe()
+		o := r.observe()
+		r.checkDead(o) // not guarded here: only counts consecutive candidates
+		if r.deadSeen >= 2 {
+			r.deadCandSeen.Store(true) // the clients may be stuck for ever: the driver must not wait for them
+		}
 		time.Sleep(time.Duration(200+(i%7)*150) * time.Microsecond) // pacing only
 	}
 }
@@ -551,7 +560,21 @@ func runRandom(sp spec) *run {
 		r.clientsWG.Add(1)
 		go r.client(ci, ops)
 	}
-	r.clientsWG.Wait()
+	joined := make(chan struct{})
+	go func() { r.clientsWG.Wait(); close(joined) }()
+wait:
+	for i := 0; ; i++ {
+		select {
+		case <-joined:
+			break wait
+		default:
+		}
+		if r.deadCandSeen.Load() { // Shutdown and a client sit in lock acquisitions: go on, finish() decides structurally
+			r.patterns["schedule-aborted-on-deadlock-candidate"] = true
+			break wait
+		}
+		pace(i)
+	}
 	close(stop)
 	<-done
 	switch sp.ShutdownMode {
@@ -561,7 +584,7 @@ func runRandom(sp spec) *run {
 	case 1:
 		r.shutdownAsync()
 		for i := 0; ; i++ { // until Shutdown has returned or is parked waiting for the workers
-			if o := r.observe(); o.shutdown != 2 {
+			if o := r.observe(); o.shutdown != 2 || o.deadCand() {
 				break
 			}
 			pace(i)
